@@ -10,7 +10,7 @@ from rsx import shims
 
 shims.boot()
 from rsx import core, h  # noqa: E402
-from rsx.core import sym_int, assume, mkbool, PathAbort  # noqa: E402
+from rsx.core import sym_int, assume, mkbool, PathAbort, choose  # noqa: E402
 from rsx import symstr as S  # noqa: E402
 from rsx.symstr import sym_str, tosym, SymStr, concretize  # noqa: E402
 from oracles import reflex, toklex  # noqa: E402
@@ -60,7 +60,9 @@ def instances(tier):
                 for c in (SIGMA if L >= 5 else [None]):
                     out.append(("regions.free.L%d.%r%s" % (L, a, "" if c is None else repr(c)), dict(L=L, head=a + (c or ""))))
     # literal frames, full-ASCII symbolic bodies
-    prefixes = ["", "r", "b", "f", "u", "Rb", "bR", "fr", "B", "F"] if tier == "thorough" else ["", "r", "b", "f", "Rb", "u"]
+    # thorough: every spelling the language accepts; quick: one of each kind, both orders of the raw f-string
+    all_prefixes = ["", "r", "R", "u", "U", "b", "B", "f", "F", "br", "bR", "Br", "BR", "rb", "rB", "Rb", "RB", "fr", "fR", "Fr", "FR", "rf", "rF", "Rf", "RF"]
+    prefixes = all_prefixes if tier == "thorough" else ["", "r", "b", "f", "Rb", "u", "rf", "Fr"]
     for L in range(0, b["frame_body_L"] + 1):
         for p in prefixes:
             for q in ("'", '"', "'''", '"""'):
@@ -74,6 +76,11 @@ def instances(tier):
             if L + L2 <= b["frame2_L"] + 1:
                 out.append(("regions.bracket.L%d.%d" % (L, L2), dict(L=L, L2=L2, frame="bracket")))
                 out.append(("regions.adjacent.L%d.%d" % (L, L2), dict(L=L, L2=L2, frame="adjacent")))
+    # names inside the replacement fields of f-strings are code (tokenize reports NAME tokens there);
+    # the same text inside any other literal is not: every prefix spelling, both quote styles
+    for p in (all_prefixes if tier == "thorough" else ["f", "rf", "Fr", "r", "b", ""]):
+        for q in ("'", '"""'):
+            out.append(("ffield.%s%s" % (p, q), dict(prefix=p, q=q, nameL=2 if tier == "thorough" else 1)))
     for L in range(0, b["lines_L"] + 1):
         out.append(("lines.L%d" % L, dict(L=L)))
     for L in range(0, b["logical_L"] + 1):
@@ -393,6 +400,49 @@ def run_word(p):
     return run
 
 
+def run_ffield(p):
+    prefix, q, nameL = p["prefix"], p["q"], p["nameL"]
+    is_f = "f" in prefix.lower()
+    is_b = "b" in prefix.lower()
+
+    def run():
+        from rope.base import worder as _worder
+
+        plain = ((32, 32), (48, 57), (65, 90), (97, 122), (46, 46), (44, 44))  # no quote, brace, backslash, newline
+        s1 = sym_str("s1", choose("l1", 3), ranges=plain)
+        s2 = sym_str("s2", choose("l2", 2), ranges=plain)
+        name = sym_str("nm", 1 + choose("ln", nameL), ranges=((97, 122),))
+        if len(name) == 2:
+            import keyword
+
+            for kw in keyword.kwlist:
+                if len(kw) == 2:
+                    assume(name != kw)
+        head = "x = " + prefix + q
+        text = tosym(head) + s1 + "{" + name + "}" + s2 + q + "\n"
+        a = len(head) + len(s1) + 1  # offset of the name
+        b = a + len(name)
+        rc = simplify.real_code(text)
+        if len(rc) != len(text):
+            return h.fail("real_code_len", "len(real_code) != len(text)", text=text)
+        if is_f:
+            # the field is code: its characters survive and the word under every offset of it is the name
+            if not (rc[a:b] == name):
+                return h.fail("ffield_hidden", "real_code blanks the name in the replacement field of an f-string", text=text, a=a, b=b)
+            w = _worder.Worder(text)
+            for o in range(a, b):
+                if not (w.get_word_at(o) == name):
+                    return h.fail("ffield_word", "get_word_at(%d) inside a replacement field is not the field's name" % o, text=text, a=a, b=b)
+        else:
+            # an ordinary literal: none of its characters may be visible as code
+            for i in range(len(head), len(text) - len(q) - 1):
+                if not (rc[i] == " "):
+                    return h.fail("literal_visible", "real_code shows a character of a %s-prefixed literal" % (prefix or "un"), text=text, a=a, b=b)
+        return h.sample(text=text)
+
+    return run
+
+
 PRIMARY_SKELETONS = [
     "x = {0}.{1}.{2}\n",
     "x = {0}({1}).{2}[{3}].{4}\n",
@@ -450,6 +500,8 @@ def run_instance(name, params, seconds):
         run = run_regions_literal(params)
     elif name.startswith("regions."):
         run = run_regions_frame(params)
+    elif name.startswith("ffield"):
+        run = run_ffield(params)
     elif name.startswith("lines"):
         run = run_lines(params)
     elif name.startswith("logical"):
